@@ -317,4 +317,480 @@ theorem unlink_is_modFlow (hν : Function.Injective ν) (p f : FUid) (vm : VM) :
       rw [absFlow_vmMod]; simp only [absFlow]; congr 1; exact listRemoveFirst_map ν hν f _)
     (fun u x => absFlow_vmMod ν φ vm p _ u x)).1
 
+/-! ### actions: `Action.process_event`, `state.actions[..]` -/
+
+def absAct (a : CoreVM.Action) : Lifetime.Action := ⟨absAStatus a.status, a.scopeCount⟩
+
+/-- what `Lifetime.processEvent` reads of an event: the six substring tests and the action uid -/
+def absEv (e : Match.Ev) : AEv :=
+  { uid := ν (e.actionUid.getD ""), isAction := hasSub e.name "Action" && e.actionUid.isSome,
+    started := hasSub e.name "ActionStarted", updated := hasSub e.name "ActionUpdated",
+    finished := hasSub e.name "ActionFinished", start := hasSub e.name "Start", stop := hasSub e.name "Stop" }
+
+theorem processEvent_refines (hν : Function.Injective ν) (a : CoreVM.Action) (e : Match.Ev) :
+    absAct (a.processEvent e) = Lifetime.processEvent (absAct a) (ν a.uid) (absEv ν e) := by
+  unfold CoreVM.Action.processEvent Lifetime.processEvent
+  have hcond : (hasSub e.name "Action" && decide (e.actionUid = some a.uid)) =
+      ((absEv ν e).isAction && (absEv ν e).uid == ν a.uid) := by
+    simp only [absEv]
+    cases hu : e.actionUid with
+    | none => simp
+    | some u =>
+      simp only [Option.isSome_some, Bool.and_true, Option.getD_some, Option.some.injEq]
+      by_cases h : u = a.uid
+      · subst h; simp
+      · have : ν u ≠ ν a.uid := fun e' => h (hν e')
+        simp [h, this]
+  rw [← hcond]
+  by_cases hc : (hasSub e.name "Action" && decide (e.actionUid = some a.uid)) = true
+  · simp only [hc, if_true, absEv]
+    by_cases h1 : hasSub e.name "ActionStarted" = true
+    · simp only [h1, if_true]; rfl
+    · simp only [h1, if_false]
+      by_cases h2 : hasSub e.name "ActionUpdated" = true
+      · simp only [h2, if_true]; rfl
+      · simp only [h2, if_false]
+        by_cases h3 : hasSub e.name "ActionFinished" = true
+        · simp only [h3, if_true]; rfl
+        · simp only [h3, if_false]
+          by_cases h4 : hasSub e.name "Start" = true
+          · simp only [h4, if_true]; rfl
+          · simp only [h4, if_false]
+            by_cases h5 : hasSub e.name "Stop" = true
+            · simp only [h5, if_true]; rfl
+            · simp only [h5, Bool.false_eq_true, if_false]
+  · simp only [hc, Bool.false_eq_true, if_false]
+
+theorem absVM_actions (hν : Function.Injective ν) (vm : VM) (au : String) :
+    (absVM ν φ vm).actions (ν au) = (OMap.lookup au vm.r.actions).map absAct := by
+  simp only [absVM, find?_lookup ν hν au vm.r.actions, Option.map_map]
+  rfl
+
+theorem lookup_insert_same {α : Type} (k : String) (v : α) : ∀ (l : List (String × α)), OMap.lookup k (OMap.insert k v l) = some v
+  | [] => by simp [OMap.lookup, OMap.insert]
+  | (k', v') :: rest => by
+    simp only [OMap.insert]
+    by_cases h : k' = k
+    · simp [h, OMap.lookup]
+    · simp only [h, if_false, OMap.lookup]
+      exact lookup_insert_same k v rest
+
+theorem lookup_insert_ne {α : Type} (k k2 : String) (v : α) (h : k2 ≠ k) : ∀ (l : List (String × α)),
+    OMap.lookup k2 (OMap.insert k v l) = OMap.lookup k2 l
+  | [] => by
+    have : ¬ k = k2 := fun e => h e.symm
+    simp [OMap.lookup, OMap.insert, this]
+  | (k', v') :: rest => by
+    simp only [OMap.insert]
+    by_cases h1 : k' = k
+    · subst h1
+      have : ¬ k' = k2 := fun e => h e.symm
+      simp [OMap.lookup, this]
+    · simp only [h1, if_false, OMap.lookup]
+      by_cases h2 : k' = k2
+      · simp [h2]
+      · simp only [h2, if_false]
+        exact lookup_insert_ne k k2 v h rest
+
+/-- the action table is keyed by the uid field -/
+def WFA (vm : VM) : Prop := ∀ k a, OMap.lookup k vm.r.actions = some a → a.uid = k
+
+/-- the state after `setAction a` -/
+def vmSetAction (vm : VM) (a : CoreVM.Action) : VM := { vm with r := { vm.r with actions := OMap.insert a.uid a vm.r.actions } }
+
+theorem setAction_run (a : CoreVM.Action) (vm : VM) : CoreVM.setAction a vm = .ok () (vmSetAction vm a) := rfl
+
+theorem vmSetAction_wfa (vm : VM) (a : CoreVM.Action) (h : WFA vm) : WFA (vmSetAction vm a) := by
+  intro k x hx
+  simp only [vmSetAction] at hx
+  by_cases hk : k = a.uid
+  · subst hk; rw [lookup_insert_same] at hx; cases hx; rfl
+  · rw [lookup_insert_ne a.uid k a hk] at hx; exact h k x hx
+
+/-- `state.actions[a.uid] = a'` IS `Lifetime.setAction (ν uid) (abs a')` on the abstract state -/
+theorem setAction_refines (hν : Function.Injective ν) (vm : VM) (a : CoreVM.Action) :
+    (absVM ν φ (vmSetAction vm a)).actions = (Lifetime.setAction (absVM ν φ vm) (ν a.uid) (absAct a)).actions := by
+  funext n
+  by_cases hn : ∃ k, ν k = n
+  · obtain ⟨k, rfl⟩ := hn
+    rw [absVM_actions ν φ hν, setAction_actions]
+    by_cases hk : k = a.uid
+    · subst hk
+      simp only [vmSetAction, lookup_insert_same, if_true, Option.map_some]
+    · have hne : ν k ≠ ν a.uid := fun e => hk (hν e)
+      simp only [vmSetAction, lookup_insert_ne a.uid k a hk, hne, if_false]
+      rw [absVM_actions ν φ hν]
+  · have hnone : ∀ (vm' : VM), (absVM ν φ vm').actions n = none := by
+      intro vm'
+      simp only [absVM]
+      rw [List.find?_eq_none.2 (fun e _ => by simpa using fun h => hn ⟨e.1, h⟩)]
+      rfl
+    have hne : n ≠ ν a.uid := fun e => hn ⟨a.uid, e.symm⟩
+    rw [hnone, setAction_actions]
+    simp only [hne, if_false]
+    rw [hnone]
+
+/-! ### `_update_action_status_by_event`: the first complete function (two nested `for` loops) -/
+
+theorem state_ext {s t : State} (h1 : s.flows = t.flows) (h2 : s.actions = t.actions) (h3 : s.order = t.order)
+    (h4 : s.queue = t.queue) (h5 : s.out = t.out) (h6 : s.busy = t.busy) : s = t := by
+  cases s; cases t; simp_all
+
+/-- body of the inner loop (over `flow_state.action_uids`) -/
+def innerStep (e : Match.Ev) (au : String) (_ : PUnit) : M (ForInStep PUnit) := do
+  let r ← getAction? au
+  match r with
+  | some a =>
+    if (a.status != ActStatus.finished) = true then do
+      CoreVM.setAction (a.processEvent e)
+      pure (ForInStep.yield PUnit.unit)
+    else pure (ForInStep.yield PUnit.unit)
+  | none => pure (ForInStep.yield PUnit.unit)
+
+/-- body of the outer loop (over `state.flow_states.values()`) -/
+def outerStep (e : Match.Ev) (i : Inst) (_ : PUnit) : M (ForInStep PUnit) :=
+  if i.status.listening = true then do
+    let x ← getInstX i.uid
+    forIn x.actionUids PUnit.unit (innerStep e)
+    pure (ForInStep.yield PUnit.unit)
+  else pure (ForInStep.yield PUnit.unit)
+
+theorem update_unfold (e : Match.Ev) :
+    CoreVM.updateActionStatusByEvent e = (do let ix ← getIx; forIn ix.insts PUnit.unit (outerStep e); pure ()) := rfl
+
+/-- the state after one iteration of the inner loop -/
+def innerNext (e : Match.Ev) (au : String) (vm : VM) : VM :=
+  match OMap.lookup au vm.r.actions with
+  | some a => if (a.status != ActStatus.finished) = true then vmSetAction vm (a.processEvent e) else vm
+  | none => vm
+
+theorem innerStep_run (e : Match.Ev) (au : String) (vm : VM) :
+    innerStep e au PUnit.unit vm = .ok (ForInStep.yield PUnit.unit) (innerNext e au vm) := by
+  unfold innerStep innerNext
+  simp only [bind, EStateM.bind]
+  have : getAction? au vm = .ok (OMap.lookup au vm.r.actions) vm := rfl
+  rw [this]
+  cases h : OMap.lookup au vm.r.actions with
+  | none => rfl
+  | some a =>
+    simp only
+    by_cases hs : (a.status != ActStatus.finished) = true
+    · simp only [hs, if_true, EStateM.bind, setAction_run]; rfl
+    · simp only [hs, if_false]; rfl
+
+theorem processEvent_uid (a : CoreVM.Action) (e : Match.Ev) : (a.processEvent e).uid = a.uid := by
+  unfold CoreVM.Action.processEvent
+  split
+  · split
+    · rfl
+    · split
+      · rfl
+      · split
+        · rfl
+        · split
+          · rfl
+          · split <;> rfl
+  · rfl
+
+theorem absAStatus_finished (st : ActStatus) : (absAStatus st != AStatus.finished) = (st != ActStatus.finished) := by
+  cases st <;> rfl
+
+theorem innerNext_frame (e : Match.Ev) (au : String) (vm : VM) :
+    (innerNext e au vm).ixs = vm.ixs ∧ (innerNext e au vm).r.fx = vm.r.fx := by
+  unfold innerNext
+  split
+  · split
+    · exact ⟨rfl, rfl⟩
+    · exact ⟨rfl, rfl⟩
+  · exact ⟨rfl, rfl⟩
+
+theorem innerNext_wfa (e : Match.Ev) (au : String) (vm : VM) (h : WFA vm) : WFA (innerNext e au vm) := by
+  unfold innerNext
+  split
+  · split
+    · exact vmSetAction_wfa vm _ h
+    · exact h
+  · exact h
+
+/-- one iteration of the inner loop IS one iteration of `updActs` on the abstract state -/
+theorem innerNext_refines (hν : Function.Injective ν) (e : Match.Ev) (au : String) (as : List Nat) (vm : VM) (hw : WFA vm) :
+    updActs (absEv ν e) (absVM ν φ vm) (ν au :: as) = updActs (absEv ν e) (absVM ν φ (innerNext e au vm)) as := by
+  simp only [updActs, absVM_actions ν φ hν]
+  unfold innerNext
+  cases h : OMap.lookup au vm.r.actions with
+  | none => rfl
+  | some a =>
+    have huid : a.uid = au := hw au a h
+    simp only [Option.map_some, absAct, absAStatus_finished]
+    by_cases hs : (a.status != ActStatus.finished) = true
+    · simp only [hs, if_true]
+      congr 1
+      apply state_ext
+      · rfl
+      · rw [setAction_refines ν φ hν, processEvent_uid, huid]
+        have := processEvent_refines ν hν a e
+        rw [huid] at this
+        rw [this]; rfl
+      · rfl
+      · rfl
+      · rfl
+      · rfl
+    · simp only [hs, Bool.false_eq_true, if_false]
+
+theorem inner_loop (hν : Function.Injective ν) (e : Match.Ev) : ∀ (l : List String) (vm : VM), WFA vm →
+    ∃ vm', forIn l PUnit.unit (innerStep e) vm = .ok PUnit.unit vm' ∧ WFA vm' ∧ vm'.ixs = vm.ixs ∧ vm'.r.fx = vm.r.fx ∧
+      absVM ν φ vm' = updActs (absEv ν e) (absVM ν φ vm) (l.map ν)
+  | [], vm, hw => ⟨vm, rfl, hw, rfl, rfl, rfl⟩
+  | au :: l, vm, hw => by
+    obtain ⟨vm', h1, h2, h3, h4, h5⟩ := inner_loop hν e l (innerNext e au vm) (innerNext_wfa e au vm hw)
+    refine ⟨vm', ?_, h2, h3.trans (innerNext_frame e au vm).1, h4.trans (innerNext_frame e au vm).2, ?_⟩
+    · rw [List.forIn_cons]
+      simp only [bind, EStateM.bind, innerStep_run]
+      exact h1
+    · rw [h5, List.map_cons, innerNext_refines ν φ hν e au _ vm hw]
+
+/-- the state after one iteration of the outer loop exists and is one iteration of `updFlows` on the abstract state -/
+theorem outer_iter (hν : Function.Injective ν) (e : Match.Ev) (i : Inst) (us : List Nat) (vm : VM) (hw : WFA vm)
+    (hi : findInst vm.ixs.ix i.uid = some i) (hx : ∃ x, OMap.lookup i.uid vm.r.fx = some x) :
+    ∃ vm1, outerStep e i PUnit.unit vm = .ok (ForInStep.yield PUnit.unit) vm1 ∧ WFA vm1 ∧ vm1.ixs = vm.ixs ∧ vm1.r.fx = vm.r.fx ∧
+      updFlows (absEv ν e) (absVM ν φ vm) (ν i.uid :: us) = updFlows (absEv ν e) (absVM ν φ vm1) us := by
+  obtain ⟨x, hx⟩ := hx
+  have hfl : (absVM ν φ vm).flows (ν i.uid) = some (absFlow ν φ vm i.uid x) := by
+    rw [absVM_flows ν φ hν, hx]; rfl
+  have hst : (absFlow ν φ vm i.uid x).status.listening = i.status.listening := by
+    simp only [absFlow, hi, absStatus_listening]
+  unfold outerStep
+  simp only [updFlows, hfl, hst]
+  by_cases hl : i.status.listening = true
+  · simp only [hl, if_true, bind, EStateM.bind, getInstX_run_some i.uid vm x hx]
+    obtain ⟨vm', h1, h2, h3, h4, h5⟩ := inner_loop ν φ hν e x.actionUids vm hw
+    refine ⟨vm', ?_, h2, h3, h4, ?_⟩
+    · rw [h1]; rfl
+    · rw [h5]; rfl
+  · simp only [hl, if_false]
+    exact ⟨vm, rfl, hw, rfl, rfl, rfl⟩
+
+theorem outer_loop (hν : Function.Injective ν) (e : Match.Ev) : ∀ (is : List Inst) (vm : VM), WFA vm →
+    (∀ i, i ∈ is → findInst vm.ixs.ix i.uid = some i ∧ ∃ x, OMap.lookup i.uid vm.r.fx = some x) →
+    ∃ vm', forIn is PUnit.unit (outerStep e) vm = .ok PUnit.unit vm' ∧ WFA vm' ∧ vm'.ixs = vm.ixs ∧ vm'.r.fx = vm.r.fx ∧
+      absVM ν φ vm' = updFlows (absEv ν e) (absVM ν φ vm) (is.map fun i => ν i.uid)
+  | [], vm, hw, _ => ⟨vm, rfl, hw, rfl, rfl, rfl⟩
+  | i :: is, vm, hw, hall => by
+    obtain ⟨hi, hx⟩ := hall i (List.mem_cons_self ..)
+    obtain ⟨vm1, r1, w1, f1, g1, e1⟩ := outer_iter ν φ hν e i (is.map fun i => ν i.uid) vm hw hi hx
+    obtain ⟨vm', r2, w2, f2, g2, e2⟩ := outer_loop hν e is vm1 w1 (fun j hj => by
+      obtain ⟨a, b⟩ := hall j (List.mem_cons_of_mem _ hj)
+      rw [f1, g1]; exact ⟨a, b⟩)
+    refine ⟨vm', ?_, w2, f2.trans f1, g2.trans g1, ?_⟩
+    · rw [List.forIn_cons]
+      simp only [bind, EStateM.bind]
+      rw [r1]
+      exact r2
+    · rw [e2, List.map_cons, e1]
+
+/-- the index instances are the entries of `flow_states`, in the same order, without duplicate uids -/
+def WFI (vm : VM) : Prop :=
+  vm.ixs.ix.insts.map (·.uid) = vm.r.fx.map (·.1) ∧ (vm.ixs.ix.insts.map (·.uid)).Nodup
+
+theorem find?_of_nodup : ∀ (l : List Inst), (l.map (·.uid)).Nodup → ∀ i, i ∈ l → l.find? (·.uid = i.uid) = some i
+  | [], _, _, h => by cases h
+  | j :: l, hn, i, hi => by
+    rw [List.map_cons, List.nodup_cons] at hn
+    simp only [List.find?_cons]
+    by_cases hji : j.uid = i.uid
+    · simp only [hji, decide_true]
+      cases hi with
+      | head => rfl
+      | tail _ h' =>
+        exfalso
+        apply hn.1
+        rw [hji]
+        exact List.mem_map_of_mem (f := (·.uid)) h'
+    · simp only [hji, decide_false]
+      cases hi with
+      | head => exact absurd rfl hji
+      | tail _ h' => exact find?_of_nodup l hn.2 i h'
+
+theorem lookup_isSome_of_mem {α : Type} (k : String) : ∀ (l : List (String × α)), k ∈ l.map (·.1) → ∃ x, OMap.lookup k l = some x
+  | [], h => by cases h
+  | (k', v) :: rest, h => by
+    simp only [OMap.lookup]
+    by_cases hk : k' = k
+    · exact ⟨v, by simp [hk]⟩
+    · simp only [hk, if_false]
+      apply lookup_isSome_of_mem k rest
+      simp only [List.map_cons, List.mem_cons] at h
+      rcases h with h | h
+      · exact absurd h.symm hk
+      · exact h
+
+/-- **`corevm_update_is_op`**: `CoreVM.updateActionStatusByEvent e` terminates normally and IS
+    `Lifetime.updateActionStatusByEvent` (the operation `.event` / the inner step of `startAction` and of the Stop echo)
+    on the abstract state, for every well-formed VM state. -/
+theorem corevm_update_is_op (hν : Function.Injective ν) (e : Match.Ev) (vm : VM) (hw : WFA vm) (hi : WFI vm) :
+    ∃ vm', CoreVM.updateActionStatusByEvent e vm = .ok () vm' ∧ WFA vm' ∧ vm'.ixs = vm.ixs ∧ vm'.r.fx = vm.r.fx ∧
+      absVM ν φ vm' = Lifetime.updateActionStatusByEvent (absVM ν φ vm) (absEv ν e) := by
+  obtain ⟨vm', r, w, f, g, eq⟩ := outer_loop ν φ hν e vm.ixs.ix.insts vm hw (fun i hmem => by
+    refine ⟨?_, ?_⟩
+    · exact find?_of_nodup vm.ixs.ix.insts hi.2 i hmem
+    · apply lookup_isSome_of_mem
+      rw [← hi.1]
+      exact List.mem_map_of_mem (f := (·.uid)) hmem)
+  refine ⟨vm', ?_, w, f, g, ?_⟩
+  · rw [update_unfold]
+    simp only [bind, EStateM.bind]
+    have : getIx vm = .ok vm.ixs.ix vm := rfl
+    rw [this]
+    simp only [r]
+    rfl
+  · rw [eq]
+    unfold Lifetime.updateActionStatusByEvent
+    congr 1
+    show vm.ixs.ix.insts.map (fun i => ν i.uid) = vm.r.fx.map (fun e => ν e.1)
+    have := congrArg (List.map ν) hi.1
+    rw [List.map_map, List.map_map] at this
+    exact this
+
+/-! ### `releaseAction ↦ stopAction1` (one iteration of the "abort all started actions" loop), modulo outgoing events -/
+
+/-- forget the outgoing events (`absVM` does not abstract them) -/
+def so (s : State) : State := { s with out := [] }
+
+def stopEv (a : CoreVM.Action) : Match.Ev := { kind := .action, name := "Stop" ++ a.name, args := [], actionUid := some a.uid }
+def vmOut (vm : VM) (se : Match.Ev) : VM :=
+  { vm with r := { vm.r with nextUid := vm.r.nextUid + 1, outgoing := vm.r.outgoing ++ [se] } }
+
+/-- what `generateUmimEvent` and `Action.processEvent` test on the name of the Stop event of an action
+    ("action names end in `Action` and contain neither `Start` nor `Stop`", harness assumption) -/
+structure GoodStop (name : String) : Prop where
+  action : hasSub ("Stop" ++ name) "Action" = true
+  started : hasSub ("Stop" ++ name) "ActionStarted" = false
+  updated : hasSub ("Stop" ++ name) "ActionUpdated" = false
+  finished : hasSub ("Stop" ++ name) "ActionFinished" = false
+  start : hasSub ("Stop" ++ name) "Start" = false
+  stop : hasSub ("Stop" ++ name) "Stop" = true
+  notUtt : ("Stop" ++ name) ≠ "StartUtteranceBotAction"
+
+theorem generateUmim_stop_run (a : CoreVM.Action) (vm vm2 : VM) (h1 : hasSub ("Stop" ++ a.name) "ActionFinished" = false)
+    (h2 : ("Stop" ++ a.name) ≠ "StartUtteranceBotAction")
+    (hupd : CoreVM.updateActionStatusByEvent (stopEv a) (vmOut vm (stopEv a)) = .ok () vm2) :
+    generateUmimEvent (stopEv a) vm = .ok (stopEv a) vm2 := by
+  unfold generateUmimEvent
+  simp only [stopEv, lookupArg, Match.lookup, Option.isSome_some, if_true, h1, h2, Bool.false_eq_true, if_false]
+  simp only [bind, EStateM.bind, freshUid, getRest, modifyRest, pure, modify, modifyGet, MonadStateOf.modifyGet,
+    get, getThe, MonadStateOf.get, EStateM.map, Functor.map]
+  simp only [↓reduceIte]
+  simp only [EStateM.bind, EStateM.get, EStateM.pure, EStateM.modifyGet]
+  simp only [vmOut, stopEv] at hupd
+  rw [hupd]
+
+theorem absEv_stop (a : CoreVM.Action) (hg : GoodStop a.name) : absEv ν (stopEv a) = AEv.stopOf (ν a.uid) := by
+  simp only [absEv, stopEv, AEv.stopOf, hg.action, hg.started, hg.updated, hg.finished, hg.start, hg.stop,
+    Option.isSome_some, Option.getD_some, Bool.and_self]
+
+theorem absAStatus_running (st : ActStatus) :
+    (absAStatus st).running = (decide (st = ActStatus.starting) || decide (st = ActStatus.started)) := by
+  cases st <;> rfl
+
+theorem setAction_setAction (s : State) (a : Nat) (x y : Lifetime.Action) :
+    Lifetime.setAction (Lifetime.setAction s a x) a y = Lifetime.setAction s a y := by
+  apply state_ext
+  · rfl
+  · funext v
+    simp only [setAction_actions]
+    split <;> rfl
+  · rfl
+  · rfl
+  · rfl
+  · rfl
+
+theorem absVM_vmSetAction (hν : Function.Injective ν) (vm : VM) (a : CoreVM.Action) :
+    absVM ν φ (vmSetAction vm a) = Lifetime.setAction (absVM ν φ vm) (ν a.uid) (absAct a) :=
+  state_ext rfl (setAction_refines ν φ hν vm a) rfl rfl rfl rfl
+
+theorem emit_updActs (e : AEv) (o : OEv) : ∀ (l : List Nat) (s : State), updActs e (emit s o) l = emit (updActs e s l) o
+  | [], s => rfl
+  | a :: as, s => by
+    simp only [updActs, emit_actions]
+    split
+    · split
+      · exact emit_updActs e o as (Lifetime.setAction s a _)
+      · exact emit_updActs e o as s
+    · exact emit_updActs e o as s
+
+theorem emit_updFlows (e : AEv) (o : OEv) : ∀ (l : List Nat) (s : State), updFlows e (emit s o) l = emit (updFlows e s l) o
+  | [], s => rfl
+  | u :: us, s => by
+    simp only [updFlows, emit_flows]
+    split
+    · split
+      · rw [emit_updActs, emit_updFlows e o us]
+      · exact emit_updFlows e o us s
+    · exact emit_updFlows e o us s
+
+theorem so_generateUmim (s : State) (o : OEv) (e : AEv) (h : s.out = []) :
+    so (generateUmim s o e) = Lifetime.updateActionStatusByEvent s e := by
+  unfold generateUmim Lifetime.updateActionStatusByEvent
+  have : (emit s o).order = s.order := rfl
+  rw [this, emit_updFlows]
+  obtain ⟨_, hout, _, _, _⟩ := update_rel e s
+  unfold Lifetime.updateActionStatusByEvent at hout
+  apply state_ext <;> try rfl
+  simp only [so, emit_out]
+  rw [hout, h]
+
+/-- **`releaseAction au` IS `stopAction1 (ν au)`** on the abstract state (all three branches; the KeyError case too),
+    up to the outgoing events, which `absVM` does not abstract -/
+theorem releaseAction_refines (hν : Function.Injective ν) (au : String) (vm : VM) (hw : WFA vm) (hi : WFI vm)
+    (hgood : ∀ a, OMap.lookup au vm.r.actions = some a → GoodStop a.name) :
+    (OMap.lookup au vm.r.actions = none ∧ releaseAction au vm = .error (.py "KeyError" au) vm ∧
+      stopAction1 (absVM ν φ vm) (ν au) = .error .key) ∨
+    ∃ vm' t, releaseAction au vm = .ok () vm' ∧ stopAction1 (absVM ν φ vm) (ν au) = .ok t ∧ absVM ν φ vm' = so t ∧
+      WFA vm' ∧ vm'.ixs = vm.ixs ∧ vm'.r.fx = vm.r.fx := by
+  have hga : getAction? au vm = .ok (OMap.lookup au vm.r.actions) vm := rfl
+  have habs0 : (absVM ν φ vm).out = [] := rfl
+  unfold releaseAction stopAction1
+  simp only [bind, EStateM.bind, hga, absVM_actions ν φ hν]
+  cases h : OMap.lookup au vm.r.actions with
+  | none => exact Or.inl ⟨rfl, rfl, rfl⟩
+  | some a =>
+    right
+    have huid : a.uid = au := hw au a h
+    simp only [Option.map_some, absAct, absAStatus_running]
+    by_cases hr : (decide (a.status = ActStatus.starting) || decide (a.status = ActStatus.started)) = true
+    · simp only [hr, if_true, setAction_run]
+      by_cases hz : a.scopeCount - 1 = 0
+      · -- the count reaches 0: Stop
+        have hz' : ((a.scopeCount - 1 == 0) = true) := by simp [hz]
+        simp only [hz, hz', if_true, setAction_run, EStateM.bind]
+        -- the state before `generateUmimEvent`
+        obtain ⟨vmA, hA⟩ : ∃ vmA, vmA = vmSetAction (vmSetAction vm { a with scopeCount := 0 })
+            { ({ a with scopeCount := 0 } : CoreVM.Action) with status := .stopping } := ⟨_, rfl⟩
+        have hwA : WFA vmA := by rw [hA]; exact vmSetAction_wfa _ _ (vmSetAction_wfa _ _ hw)
+        have hiA : WFI (vmOut vmA (stopEv a)) := by rw [hA]; exact hi
+        have hwO : WFA (vmOut vmA (stopEv a)) := hwA
+        obtain ⟨vm2, r2, w2, f2, g2, e2⟩ := corevm_update_is_op ν φ hν (stopEv a) (vmOut vmA (stopEv a)) hwO hiA
+        have hgen := generateUmim_stop_run a vmA vm2 (hgood a h).finished (hgood a h).notUtt r2
+        have hse : (({ kind := Match.EvKind.action, name := "Stop" ++ a.name, args := [], actionUid := some a.uid } : Match.Ev)) = stopEv a := rfl
+        have hgen' : generateUmimEvent { kind := Match.EvKind.action, name := "Stop" ++ a.name, args := [], actionUid := some a.uid }
+            (vmSetAction (vmSetAction vm { a with scopeCount := 0 })
+              { ({ a with scopeCount := 0 } : CoreVM.Action) with status := .stopping }) = .ok (stopEv a) vm2 := by
+          rw [hse, ← hA]; exact hgen
+        refine ⟨vm2, _, ?_, rfl, ?_, w2, ?_, ?_⟩
+        · rw [hgen']; rfl
+        · rw [so_generateUmim _ _ _ (by rfl), e2]
+          have hO : absVM ν φ (vmOut vmA (stopEv a)) = absVM ν φ vmA := rfl
+          rw [hO, hA, absVM_vmSetAction ν φ hν, absVM_vmSetAction ν φ hν, setAction_setAction, absEv_stop ν a (hgood a h)]
+          simp only [huid, absAct, absAStatus]
+        · rw [f2, hA]; rfl
+        · rw [g2, hA]; rfl
+      · have hz' : ((a.scopeCount - 1 == 0) = false) := by simp [hz]
+        simp only [hz, hz', if_false, Bool.false_eq_true]
+        refine ⟨vmSetAction vm { a with scopeCount := a.scopeCount - 1 }, _, rfl, rfl, ?_, vmSetAction_wfa _ _ hw, rfl, rfl⟩
+        rw [absVM_vmSetAction ν φ hν]
+        simp only [huid, absAct]
+        rfl
+    · simp only [hr, if_false, Bool.false_eq_true]
+      exact ⟨vm, _, rfl, rfl, rfl, hw, rfl, rfl⟩
+
 end NemoVerif.Lifetime.Refine
